@@ -3,14 +3,17 @@ use crate::by_ty;
 use crate::checks::*;
 use crate::checks2::*;
 use crate::checks3::*;
+use crate::checks4::*;
 use crate::runner::{Ctx, Stats, Tier, WorkerSpec};
 use crate::types::*;
 
 pub mod c01;
 pub mod c02;
 pub mod c04;
+pub mod c12;
 pub mod calls;
 pub mod generic;
+pub mod sys;
 
 pub struct Meta {
     pub rule: String,
@@ -24,6 +27,10 @@ pub fn meta(prop: &str, tier: Tier) -> Meta {
         "C01" => c01::meta(tier),
         "C02" => c02::meta(tier),
         "C04" => c04::meta(tier),
+        "C12" => c12::meta(tier),
+        "C10" => sys::c10_meta(tier),
+        "C11" => sys::c11_meta(tier),
+        "C13" => sys::c13_meta(tier),
         "C03" => calls::c03_meta(tier),
         "C05" => generic::c05_meta(tier),
         "C14" => generic::c14_meta(tier),
@@ -41,6 +48,10 @@ pub fn worker(ctx: &mut Ctx) {
         "C01" => c01::worker(ctx),
         "C02" => c02::worker(ctx),
         "C04" => c04::worker(ctx),
+        "C12" => c12::worker(ctx),
+        "C10" => sys::c10_worker(ctx),
+        "C11" => sys::c11_worker(ctx),
+        "C13" => sys::c13_worker(ctx),
         "C03" => calls::c03_worker(ctx),
         "C05" => generic::c05_worker(ctx),
         "C14" => generic::c14_worker(ctx),
@@ -64,6 +75,18 @@ pub fn worker_specs(prop: &str, _tier: Tier) -> Vec<WorkerSpec> {
             v.extend(mk("chk", n));
             v
         }
+        // few processes, many threads each
+        "C11" => mk("rel", 2),
+        // one worker process per (feature set, capability mask)
+        "C13" => {
+            let mut v = vec![];
+            for var in sys::C13_VARIANTS {
+                for m in sys::C13_MASKS {
+                    v.push(WorkerSpec { variant: var.into(), mask: m, shard: 0, nshards: 1 });
+                }
+            }
+            v
+        }
         _ => mk("rel", n),
     }
 }
@@ -85,6 +108,9 @@ pub fn run_case(case: &Case) -> Outcome {
         "shape" => by_ty!(case.ty, k_shape(case)),
         "immut" => by_ty!(case.ty, k_immut(case)),
         "guard" => by_ty!(case.ty, k_guard(case)),
+        "history" => by_ty!(case.ty, k_history(case)),
+        "threads" => by_ty!(case.ty, k_threads(case)),
+        "config" => by_ty!(case.ty, k_config(case)),
         "exact" => k_exact(case),
         "ops" => k_ops(case),
         "structure" => k_structure(case),
